@@ -178,7 +178,11 @@ fn main() {
                 let path = write_found(&id, f);
                 println!("failure (suite {}): {}", suite.name, f.message);
                 if let Some(d) = &f.desc {
-                    println!("shrunk case: {}", serde_json::to_string(d).unwrap());
+                    let mut d = d.clone();
+                    if let Some(o) = d.as_object_mut() {
+                        o.remove("concrete");
+                    }
+                    println!("shrunk case: {}", serde_json::to_string(&d).unwrap());
                 }
                 violations.push((f.message.clone(), path));
             }
